@@ -24,6 +24,7 @@ gvars == <<vars, hist, pend, rel, multi>>
 LockedAPc == IF AQ THEN "u2" ELSE "u3"
 Hook(p) == CASE pc[p] \in {"gu", "u1", "m1"} -> "start"
              [] pc[p] = "srv"  -> "serve"
+             [] pc[p] = "ga"   -> "auth"
              [] pc[p] = "gs"   -> "resolved"
              [] pc[p] = "miss" -> "miss"
              [] pc[p] = "fail" -> "failed"
@@ -67,7 +68,10 @@ Obs == [st    |-> [p \in Procs |-> Status(p)],
         term  |-> [r \in 1..nrec |-> rterm[r]],
         db    |-> [u \in Users |-> [x |-> dbx[u], e |-> dbe[u], c |-> dbc[u], auth |-> Auth(u)]],
         rest  |-> [u \in Users |-> RestNow(u)],
-        car   |-> carried, chg |-> charged, top |-> topups,
+        car   |-> carried, chg |-> charged, top |-> topups, lost |-> [u \in Users |-> Lost(u)], drp |-> dropped,
+        upl   |-> [u \in Users |-> queue[u] = Z /\ (active[u] # 0 => rvalve[active[u]] = Z) /\ (\A p \in Procs : u \notin pin[p])
+                                    /\ PendOf(u) = Z],
+        evt   |-> [u \in Users |-> u \in everTerm],
         q     |-> queue, qin |-> qin, valve |-> [r \in 1..nrec |-> rvalve[r]],
         multi |-> multi,
         quiet |-> Quiescent /\ Blocked = {},
@@ -120,7 +124,7 @@ GSpec == GInit /\ [][GStep]_gvars
 \* terminal states, spelled out (no ENABLED: GStep constrains primed operators)
 AdminPossible(a, u) ==
   /\ nadmin < MaxAdmin /\ dbx[u]
-  /\ CASE a = "drain" -> dbc[u] # Z [] a = "expire" -> ~dbe[u] [] a = "unexpire" -> dbe[u] [] OTHER -> TRUE
+  /\ CASE a = "drain" -> dbc[u] # CrZ [] a = "expire" -> ~dbe[u] [] a = "unexpire" -> dbe[u] [] OTHER -> TRUE
 NoEnv == /\ Parked = {}
          /\ ntraffic >= MaxTraffic \/ LiveObjs = {}
          /\ ~\E a \in AdminOps : \E u \in Users : AdminPossible(a, u)
